@@ -34,6 +34,8 @@ def universe():
     import dbmodel as _M
     for a, b in _M.FOLD_PAIRS:
         pts += [{"time": a, "meas": "m1", "tags": {"a": "x"}, "fields": {"a": 1}}, {"time": b, "meas": "m1", "tags": {"a": "x"}, "fields": {"a": 1}}]
+    pts += [{"time": T0, "meas": "m1", "tags": {"a": " "}, "fields": {"a": 3}}, {"time": T0, "meas": "m1", "tags": {"a": " x"}, "fields": {"a": 3.0}},
+            {"time": T0 + 1, "meas": "m1", "tags": {"a": "x y"}, "fields": {"a": 0.0}}, {"time": T0 + 1, "meas": " ", "tags": {"a": "\t"}, "fields": {"a": -0.0}}]
     return pts + far_points()
 
 
@@ -74,6 +76,13 @@ def vocabulary():
           ("S", "fields", [("k", "matches")], ("exists",)), ("S", "tags", [("k", "search")], ("match", 0, 0)),
           ("S", "tags", [("m", 6), ("k", "a")], ("cmp", "==", ("s", "ab"))), ("S", "tags", [("m", 6), ("k", "b")], ("exists",)),
           ("S", "fields", [("m", 6), ("k", "a")], ("cmp", ">=", ("n", 1))), ("S", "tags", [("m", 0), ("k", "a")], ("cmp", "!=", ("s", "ab"))),
+          # two maps one after the other, in an order that matters (len-class then first letter / first letter then len-class; minus then None / None then minus)
+          ("S", "tags", [("k", "a"), ("m", 3), ("m", 1)], ("cmp", "==", ("s", "m"))), ("S", "tags", [("k", "a"), ("m", 1), ("m", 3)], ("cmp", "==", ("s", "few"))),
+          ("S", "tags", [("k", "a"), ("m", 3), ("m", 1)], ("cmp", "==", ("s", "f"))), ("S", "fields", [("k", "a"), ("m", 2), ("m", 5)], ("cmp", "==", ("none",))),
+          ("S", "fields", [("k", "a"), ("m", 5), ("m", 2)], ("cmp", "==", ("none",))), ("S", "meas", [("m", 3), ("m", 1)], ("cmp", "==", ("s", "m"))),
+          # patterns that differ only in the case of an escape letter, with and without IGNORECASE
+          ("S", "tags", [("k", "a")], ("match", 3, 1)), ("S", "tags", [("k", "a")], ("match", 4, 1)), ("S", "tags", [("k", "a")], ("search", 3, 1)),
+          ("S", "tags", [("k", "a")], ("search", 4, 1)), ("S", "tags", [("k", "a")], ("match", 3, 0)), ("S", "tags", [("k", "a")], ("match", 4, 0)),
           ("noop", "tags"), ("noop", "fields"), ("noop", "meas"), ("noop", "time"),
           ("noop", "tags", "a"), ("noop", "tags", "zz"), ("noop", "fields", "a"), ("noop", "fields", "zz", "y")]
     import dbmodel as _M
